@@ -277,4 +277,58 @@ def directH : List HEv → List HEv
   | .compile _ :: es => .flush :: directH es
   | .commit :: es => directH es
 
+/-! ### re-use of one compiled template, failed instantiation -/
+
+/-- `arguments[op.name]` with a possibly incomplete dict: `none` = KeyError -/
+def instOp? (σ : String → Option Int) : TOperand → Option Operand
+  | .op o => some o
+  | .tmpl n => (σ n).map .imm
+
+def instInstr? (σ : String → Option Int) (i : TInstr) : Option Instr :=
+  (i.ops.mapM (instOp? σ)).map (fun ops => ⟨i.cls, ops⟩)
+
+/-- `Subroutine.instantiate` as a function of (template, σ): the instruction list of the instance,
+`none` if an argument is missing -/
+def instantiate? (σ : String → Option Int) (t : List TInstr) : Option (List Instr) :=
+  t.mapM (instInstr? σ)
+
+/-- The compiled template as an OBJECT shared by all its (shallow) copies: one call of
+`copy.copy(template).instantiate(σ)` yields the instance and leaves the shared instruction
+objects as they are — the code builds a new list of new instructions and assigns it at the very
+end, so a KeyError half-way changes nothing. -/
+def instCall (t : List TInstr) (σ : String → Option Int) : Option (List Instr) × List TInstr :=
+  (instantiate? σ t, t)
+
+/-- the variant that fills the shared instruction objects IN PLACE, operand by operand, and stops
+at the first missing argument (not the code; for a witness) -/
+def fillOps (σ : String → Option Int) : List TOperand → List TOperand × Bool
+  | [] => ([], true)
+  | .op o :: os => let r := fillOps σ os; (.op o :: r.1, r.2)
+  | .tmpl n :: os =>
+    match σ n with
+    | some v => let r := fillOps σ os; (.op (.imm v) :: r.1, r.2)
+    | none => (.tmpl n :: os, false)
+
+def fillInstrs (σ : String → Option Int) : List TInstr → List TInstr × Bool
+  | [] => ([], true)
+  | i :: is =>
+    match fillOps σ i.ops with
+    | (ops, true) => let r := fillInstrs σ is; (⟨i.cls, ops⟩ :: r.1, r.2)
+    | (ops, false) => (⟨i.cls, ops⟩ :: is, false)
+
+def instCallInPlace (t : List TInstr) (σ : String → Option Int) : Option (List Instr) × List TInstr :=
+  match fillInstrs σ t with
+  | (t', true) => (instantiate? (fun _ => none) t', t')
+  | (t', false) => (none, t')
+
+/-- a sequence of instantiations of one shared template -/
+def instCalls (call : List TInstr → (String → Option Int) → Option (List Instr) × List TInstr) :
+    List TInstr → List (String → Option Int) → List (Option (List Instr)) × List TInstr
+  | t, [] => ([], t)
+  | t, σ :: σs =>
+    match call t σ with
+    | (r, t') =>
+      match instCalls call t' σs with
+      | (rs, tf) => (r :: rs, tf)
+
 end NQ.Tpl
